@@ -29,6 +29,11 @@ mod wire;
 
 use common::*;
 
+/// location of the most recent panic (library panics caught by `guarded` included)
+pub static LAST_PANIC: std::sync::Mutex<String> = std::sync::Mutex::new(String::new());
+/// id of the case most recently started (`Ctx::selected`)
+pub static LAST_CASE: std::sync::Mutex<String> = std::sync::Mutex::new(String::new());
+
 pub struct Ctx {
     pub rep: Report,
     pub ses: Session,
@@ -53,6 +58,9 @@ impl Ctx {
         }
     }
     pub fn selected(&self, id: &str) -> bool {
+        if let Ok(mut g) = LAST_CASE.lock() {
+            *g = id.to_string();
+        }
         match &self.only {
             None => true,
             Some(o) => id.starts_with(o.as_str()) || o.starts_with(id),
@@ -128,7 +136,13 @@ fn main() {
         i += 1;
     }
     // silence panic messages of caught aborts
-    std::panic::set_hook(Box::new(|_| {}));
+    std::panic::set_hook(Box::new(|info| {
+        // silent, but remember where the last panic came from (used when the harness itself aborts)
+        let loc = info.location().map(|l| format!("{}:{}", l.file(), l.line())).unwrap_or_default();
+        if let Ok(mut g) = LAST_PANIC.lock() {
+            *g = loc;
+        }
+    }));
     let mut ctx = Ctx {
         rep: Report::new(&prop),
         ses: Session::new(),
@@ -140,6 +154,9 @@ fn main() {
         child,
         nopar_bin,
     };
+    // the harness' own unwraps may fire when the library under test refuses something it should answer:
+    // turn that into a reported failure with the case at hand instead of dying without a report
+    let run = std::panic::catch_unwind(std::panic::AssertUnwindSafe(|| {
     match prop.as_str() {
         "C01" => {
             props_kzg::c01(&mut ctx);
@@ -196,6 +213,16 @@ fn main() {
         props_mlpc::run(&mut ctx, &prop);
         props_default::run(&mut ctx, &prop);
         props_c15::run_prop(&mut ctx, &prop);
+    }
+    }));
+    if let Err(e) = run {
+        let msg = if let Some(x) = e.downcast_ref::<&str>() { x.to_string() } else if let Some(x) = e.downcast_ref::<String>() { x.clone() } else { "panic".to_string() };
+        let case = LAST_CASE.lock().map(|g| g.clone()).unwrap_or_default();
+        let loc = LAST_PANIC.lock().map(|g| g.clone()).unwrap_or_default();
+        ctx.ses.pending.clear();
+        ctx.rep.expect_fail(&case, "harness/aborted",
+            &format!("the run aborted in case {} at {}: {}", case, loc, msg.chars().take(200).collect::<String>()),
+            format!("# case: {}\n# seed: {}\n# the harness expected the library to answer an in-domain request here and it did not: {}\n# at {}\n# rerun: .build/cargo/debug/pcv-harness {} --seed {} --only {}\n", case, seed, msg, loc, prop, seed, case));
     }
     ctx.flush_model(&format!("{}-final", prop));
     let json = ctx.rep.to_json(&format!("{}/replays", workdir));
